@@ -124,6 +124,14 @@ func C05() api.Check {
 			if idx%8 == 1 {
 				return item{c: gen.RMW(seed), sub: "rmw"}
 			}
+			if idx%8 == 5 {
+				// systematic: k enumerates (stride, walk length, gap); the walk
+				// length runs through every value of 4..99 for either stride
+				// before it repeats (quick: once; thorough: 65 times with
+				// different surroundings)
+				k := idx / 8
+				return item{c: gen.EvictWindow(seed, 4+(k/2)%96, []int{128, 64}[k%2], []int{0, 0, 1, 3, 12}[(k/192)%5]), sub: "evict-window"}
+			}
 			return item{c: gen.Memory(seed), sub: "memory"}
 		},
 		judge: judgeRef,
